@@ -1809,6 +1809,37 @@ fn witnesses() -> Oracle {
         run(name, "late-save-failure-breaks-the-document", &|| late_failure_witness(victim, &junk, false));
         run(&format!("{}-cached", name), "late-save-failure-breaks-the-document", &|| late_failure_witness(victim, &junk, true));
     }
+    // an info dictionary the writer refuses (a date out of range): the save fails *before* anything is written
+    run("info-date-invalid-fails-before-the-write", "save-with-unwritable-info-leaves-garbage", &|| {
+        use pdf::object::InfoDict;
+        use pdf::primitive::{Date, TimeRel};
+        let b = witness_base(b"", false, false);
+        let (mut st, mut tr) = open_plain(&b.bytes)?;
+        let new3 = dict_val(54, "New");
+        st.update(PlainRef { id: 3, gen: 0 }, W(new3.clone())).map_err(|e| format!("update: {}", e))?;
+        let date = |month: u8| Date { year: 2024, month, day: 2, hour: 3, minute: 4, second: 5, rel: TimeRel::Universal, tz_hour: 0, tz_minute: 0 };
+        tr.info_dict = Some(InfoDict { creation_date: Some(date(100)), ..Default::default() });
+        if st.save(&mut tr).is_ok() {
+            return Err("save succeeded with month 100 in /CreationDate".into());
+        }
+        if resolved_canon(&st, 3) != new3.canon() {
+            return Err("the pending update is gone after the failed save".into());
+        }
+        tr.info_dict = Some(InfoDict { creation_date: Some(date(12)), ..Default::default() });
+        let bytes = st.save(&mut tr).map_err(|e| format!("save after the date was corrected: {}", e))?.to_vec();
+        if !bytes.starts_with(&b.bytes) {
+            return Err("the base file is not a prefix".into());
+        }
+        // exactly one revision was appended: the failed attempt left nothing
+        let n = bytes.windows(9).filter(|w| *w == b"startxref").count();
+        if n != 2 {
+            return Err(format!("{} startxref in the output, expected the base's and one more", n));
+        }
+        if reload_canon(&bytes, 3) != new3.canon() {
+            return Err(format!("after reload 3 0 R reads {}", reload_canon(&bytes, 3)));
+        }
+        Ok(())
+    });
     or
 }
 
